@@ -37,6 +37,11 @@ def check(run):
     if "Invariant NoLostUpdate is violated" not in m["out"]:
         raise core.Inconclusive("vacuity guard: the specification without the mutex must violate NoLostUpdate")
     run.extra["vacuity_guard"] = "Limiter.tla with Locking=FALSE violates NoLostUpdate (as it must)"
+    # the in-process store behind the middleware: its two-phase garbage collector must be invisible; without the re-check it is not
+    run.tlc_must_pass("MemoryStore", "MC_MemoryStore.cfg", workers=4, heap="2g", timeout=600, name="MemoryStore")
+    m = run.tlc("MemoryStore", "MC_MemoryStore_mutant.cfg", workers=4, heap="2g", timeout=600, name="MemoryStore_mutant")
+    if "GcInvisible is violated" not in m["out"]:
+        raise core.Inconclusive("vacuity guard: a sweep that does not re-check must violate GcInvisible")
     binary = run.build_harness()
     # ---- 2. backward: schedules of the real middleware, validated by TLC
     confs = [dict(alg="fixed", skipFailed=False, skipOK=False, exp=3),
@@ -96,6 +101,7 @@ def check(run):
         tot["history_requests"] += summary["requests"]
         tot["history_429"] += summary["rejected_429"]
         tot["history_fuzzy"] += summary["fuzzy_boundary"]
+        tot["history_requests_in_the_collectors_gap"] += summary.get("requests_served_in_the_collectors_gap", 0)
     run.evaluations = tot["schedules"] + tot["histories"]
     run.traces = tot["accepted"] + tot["histories"]
     run.nontrivial = tot["schedules"] + tot["history_429"]
